@@ -180,7 +180,20 @@ def check(chk):
         sends = [n for n in g.stmt_nodes() if n.kind == 'stmt' and 'self.send_msg(' in src(n.ast)]
         chk.judge(len(sends) == 2 and all(c == 'comp' for s_ in sends for _, c in fo.at(s_)), 'C47.compress', f, 'auth replies are sent with the negotiated framing already on', 'auth response sent before compression/checksumming is set up')
     ws = [(qual_of(f), src(st)) for st, t, f in attr_writes(m, 'compressor') if src(t) == 'self.compressor']
-    okw = sorted(ws) == sorted([('Connection._enable_compression', 'self.compressor = self._compressor'), ('Connection._handle_auth_response', 'self.compressor = self._compressor')])
+    okw = bool(ws) and all(w[1] == 'self.compressor = self._compressor' and w[0] in ('Connection._enable_compression', 'Connection._handle_auth_response') for w in ws) and \
+        any(w[0] == 'Connection._enable_compression' for w in ws)
+    # AUTH_SUCCESS: the negotiated compressor is installed (directly or through _enable_compression) before the connection is reported ready
+    har = m.func('Connection._handle_auth_response')
+    gh = CFG(har)
+
+    def step_h(n, c):
+        if n.kind == 'stmt' and src(n.ast) in ('self._enable_compression()', 'self.compressor = self._compressor'):
+            return 'installed'
+        return c
+    fh = Flow(gh, 'none', step_h)
+    sets_ = [n for n in gh.stmt_nodes() if n.kind == 'stmt' and src(n.ast) == 'self.connected_event.set()']
+    ready_ok = [n for n in sets_ if all(_isinst(fa, 'auth_response', 'AuthSuccessMessage') is True for fa, _c in fh.at(n))]
+    okw = okw and len(ready_ok) >= 1 and all(c == 'installed' or not fa.knows('self._compressor') is not False for n in ready_ok for fa, c in fh.at(n))
     chk.judge(okw, 'C47.compress', m.func('Connection._enable_compression'), 'self.compressor is written only by _enable_compression and the AUTH_SUCCESS arm (from the negotiated _compressor)', 'other writers of the outgoing compressor: %s' % ws)
     for rel in REACTORS:
         mod = chk.repo.mod(rel)
